@@ -1009,3 +1009,16 @@ pub mod caches {
     pub use crate::merkle::page_set_verif::PageSetSim;
     pub use crate::page_cache::verif::{PageCacheSim, ShardDump};
 }
+
+// H21 — The multi-worker split of the beatree update and its range-extension protocol
+// (`beatree/ops/update/extend_range_protocol.rs`, `leaf_stage.rs`, `branch_stage.rs`): the `WorkerParams` the private
+// `prepare_workers` of either stage computes, a recorder of every `ExtendRangeResponse` as its requester receives it
+// and of every worker's `NodesTracker` when `run_worker` returns, and the whole real leaf stage (`leaf_stage::run`)
+// on caller-supplied leaves (the branch-stage analogue is `branch_updater::run_stage`).
+pub mod extend_range {
+    pub use crate::beatree::ops::branch_stage_verif::prepare_view as branch_prepare_view;
+    pub use crate::beatree::ops::extend_range_verif::{take_log, EntryView, Event, ParamsView};
+    pub use crate::beatree::ops::leaf_stage_verif::{
+        prepare_view as leaf_prepare_view, run_leaf_stage, LeafStageOut,
+    };
+}
